@@ -181,6 +181,11 @@ func (propC02) Gen(r *Rng, run uint64, tier string) *Plan {
 		end = start + 1 + r.Int63n(90*sec)
 	}
 	rng := []int64{5 * sec, 30 * sec, 60 * sec, 120 * sec}[r.Intn(4)]
+	if r.Bool(0.03) {
+		// a range of sixty-odd years: the window begins before 1970
+		rng = int64(60*365*24*3600+r.Intn(100000)) * sec
+		p.Tags["window_before_epoch"] = "1"
+	}
 	off := []int64{0, 0, 10 * sec, 60 * sec}[r.Intn(4)]
 	kind := []string{"log_range", "log_range", "log_instant", "metric_range", "metric_instant", "metric_binop"}[r.Intn(6)]
 	var msB []Matcher
@@ -221,6 +226,10 @@ func (propC02) Gen(r *Rng, run uint64, tier string) *Plan {
 		// selection must go by what the daemon reports then.
 		c := p.World.Containers[r.Intn(len(p.World.Containers))]
 		p.Faults = []Fault{{Kind: FaultInventoryChange, Container: c.ID, Open: -1, K: 1}}
+		if r.Bool(0.5) {
+			// renamed only: state and status stay what they were
+			p.Faults[0].ErrKind = "rename"
+		}
 		p.Tags["changed"] = c.ID
 	}
 	switch kind {
@@ -352,7 +361,10 @@ func c02Judge(p *Plan, o *Outcome, st *Stats, ms, msB []Matcher, kind string, rn
 		// (an implementation that lists once per query legitimately keeps the first view)
 		w2 := p.World.Clone()
 		if c := w2.Find(id); c != nil {
-			c.State, c.Status, c.Names = ChangedState, ChangedStatus, []string{"/" + ChangedName(id)}
+			c.Names = []string{"/" + ChangedName(id)}
+			if p.Faults[0].ErrKind != "rename" {
+				c.State, c.Status = ChangedState, ChangedStatus
+			}
 		}
 		worldB = &w2
 		if swap {
